@@ -5,6 +5,8 @@ import "fv/internal/core"
 // Registry maps property ids to their checks.
 var Registry = map[string]func(*core.Ctx){
 	"C01": C01,
+	"C02": C02,
+	"C03": C03,
 	"C04": C04,
 	"C05": C05,
 	"C06": C06,
